@@ -1115,6 +1115,10 @@ def expr_fn(
     return str(ret)
 
 
+# MediaWiki limits the result of padleft/padright to 500 characters
+MAX_PAD_LENGTH = 500
+
+
 def padleft_fn(
     ctx: "Wtp", fn_name: str, args: list[str], expander: Callable[[str], str]
 ) -> str:
@@ -1132,7 +1136,7 @@ def padleft_fn(
             )
         cnt = 0
     else:
-        cnt = int(cntstr)
+        cnt = min(int(cntstr), MAX_PAD_LENGTH)
     if cnt - len(v) > len(pad) and len(pad) > 0:
         pad = pad * ((cnt - len(v)) // len(pad))
     if len(v) < cnt:
@@ -1157,7 +1161,7 @@ def padright_fn(
                 sortid="parserfns/940",
             )
     else:
-        cnt = int(cntstr)
+        cnt = min(int(cntstr), MAX_PAD_LENGTH)
     if cnt - len(v) > len(pad) and len(pad) > 0:
         pad = pad * ((cnt - len(v)) // len(pad))
     if len(v) < cnt:
@@ -1452,7 +1456,7 @@ def pad_fn(
         )
         cnt = 0
     else:
-        cnt = int(cntstr)
+        cnt = min(int(cntstr), MAX_PAD_LENGTH)
     if cnt - len(v) > len(pad):
         pad = pad * ((cnt - len(v)) // len(pad) + 1)
     if len(v) < cnt:
